@@ -68,6 +68,7 @@ type FileInfo struct {
 	FMFiles      []string `json:"fm_files,omitempty"`
 	Expected     []string `json:"expected_fm_files,omitempty"`
 	NonDeterm    string   `json:"non_deterministic,omitempty"`
+	OptSpelling  string   `json:"option_spelling,omitempty"` // a boolean option spelled another way changed the output
 	ParseErr     string   `json:"parse_err,omitempty"`
 	BuildErr     string   `json:"build_err,omitempty"`
 	PlainBuildOK bool     `json:"plain_build_ok"` // the message types alone compile (fixture sanity)
@@ -336,6 +337,30 @@ func main() {
 		}
 		if j.run1.Err != "" {
 			return
+		}
+		// boolean options are parsed like Go flags: every spelling of false is the default, every spelling of true is
+		// "true" (probed on one file per option set)
+		if j.spec.Name == "mix3" && (j.v.Name == "gv2s" || j.v.Name == "gv2u" || j.v.Name == "gv2p" || j.v.Name == "gogop") {
+			try := func(param, what string) {
+				if j.info.OptSpelling != "" {
+					return
+				}
+				r, err := miniprotoc.Run(*fmBin, param, j.deps, []string{j.spec.FD.GetName()}, "", nil)
+				if err != nil || r.Err != j.run1.Err || string(r.Raw) != string(j.run1.Raw) {
+					j.info.OptSpelling = fmt.Sprintf("%s: parameter %q does not give the output of %q", what, param, j.v.FMParam)
+				}
+			}
+			for _, opt := range []string{"enableunsafedecode", "filepermessage"} {
+				if strings.Contains(j.v.FMParam, opt+"=true") {
+					for _, sp := range []string{"1", "t", "T", "TRUE", "True"} {
+						try(strings.Replace(j.v.FMParam, opt+"=true", opt+"="+sp, 1), opt+" switched on as ="+sp)
+					}
+				} else {
+					for _, sp := range []string{"false", "0", "f", "F", "FALSE", "False"} {
+						try(j.v.FMParam+","+opt+"="+sp, opt+" explicitly switched off as ="+sp)
+					}
+				}
+			}
 		}
 		// documented names
 		prefix := strings.TrimSuffix(strip(j.info.GoImport+"/"+j.spec.Name), "")
